@@ -83,6 +83,16 @@ const KEY_UNITS: &[&str] = &[
     "startAt", "lastFrame", "players", "names", "netplay", "code", "characters", "playedOn", "consoleNick", "0", "1",
     "18", "a", "", "\u{e9}t\u{e9}", "\u{30b9}\u{30de}\u{30d6}\u{30e9}", "key with space", "\u{1F600}",
 ];
+/// keys that (de)serialisers use internally as private markers: in a replay they are ordinary text
+const RESERVED_KEYS: &[&str] = &[
+    "$serde_json::private::RawValue",
+    "$serde_json::private::Number",
+    "$__toml_private_datetime",
+    "$__serde_spanned_private_start",
+    "__proto__",
+    "$type",
+];
+const RESERVED_VALUES: &[&str] = &["7", "-1", "1e999", "{}", "[1]", "null", "not json", "\"x\"", "1.5", ""];
 const STR_UNITS: &[&str] = &["\u{feff}", "a", "B", "7", " ", "-", ":", "\u{e9}", "\u{3042}", "\u{1F600}", "\"", "\\", "\n", "\u{0}", "\u{7f}"];
 
 fn gen_string(rng: &mut Rng, max_bytes: usize) -> String {
@@ -123,6 +133,23 @@ pub fn gen_tree(rng: &mut Rng, depth: u32, wide: bool) -> Tree {
             if k.len() > 255 || t.iter().any(|(kk, _)| *kk == k) {
                 continue;
             }
+        }
+        if rng.chance(1, 30) {
+            // a map whose first (often only) key is such a marker, with a string that looks like its payload
+            let mut inner: Tree = vec![((*rng.pick(RESERVED_KEYS)).to_string(), Node::Str((*rng.pick(RESERVED_VALUES)).to_string()))];
+            if rng.chance(1, 3) {
+                inner.push(("a".to_string(), Node::Int(1)));
+            }
+            if rng.chance(1, 4) {
+                // at this level instead of one below
+                let (rk, rv) = inner.remove(0);
+                if !t.iter().any(|(kk, _)| *kk == rk) {
+                    t.push((rk, rv));
+                }
+            } else {
+                t.push((k, Node::Map(inner)));
+            }
+            continue;
         }
         let node = match rng.below(10) {
             0..=3 => Node::Str(gen_string(rng, 255)),
@@ -449,6 +476,7 @@ pub fn gen_stream(rng: &mut Rng, len: usize, allow_eintr: bool) -> StreamSpec {
         hard_error_offset: None,
         prefix: 0,
         suffix: 0,
+        scribble: rng.chance(1, 4),
     };
     // one stream in four is a member of something larger: it does not start at offset 0 and/or
     // other bytes follow the closing brace
